@@ -309,7 +309,7 @@ class C07(Prop):
     theorems = ["NV.C07.visibility_table", "NV.C07.visibility_any_flags", "NV.C07.visibility_lifted",
                 "NV.C07.driver_origins_never_refused", "NV.C07.bsearch_correct", "NV.C07.find_function_correct",
                 "NV.C07.find_offsets_are_path_sums", "NV.C07.cache_transparent_step", "NV.C07.cache_transparent",
-                "NV.C07.frame_offsets_correct"]
+                "NV.C07.frame_offsets_correct", "NV.C07.built_alias_flags_agree", "NV.C07.inherit_flags_rule_is_spec"]
     witness_theorems = ["NV.C07.Witness.old_cache_not_transparent"]
     consts = [("applyCacheBits", "APPLY_CACHE_BITS"),
               ("nameInherited", "NAME_INHERITED"), ("nameUndefined", "NAME_UNDEFINED"),
@@ -344,9 +344,16 @@ class C07(Prop):
             "copied name string), driver apply, call_out-origin apply and real call_out, with refused and non-existent names, "
             "cache clears and forced slot collisions; every case is run on the real driver, by the model on the dumped real "
             "tables and by the specification on the abstract graph; a case is non-trivial when at least one call ran a body")
-    not_covered = ["copy_functions / overload_function / compress_function_tables are not modelled: their output is validated "
-                   "per generated program (WF + three-way agreement), not proved",
-                   "heart_beat dispatch (prog->heart_beat index), simul_efun dispatch and efun function pointers are not exercised",
+    not_covered = ["the construction of the function tables (copy_functions, overload_function, define_new_function, epilog, "
+                   "copy_and_sort_function_table, operands of local / :: / function-pointer calls) IS modelled (NV/C07/Build.lean) and "
+                   "the model-built table must equal the real dumped table of every generated program, but `built_table_wf` and the "
+                   "full `built_flags_are_spec_visibility` are NOT proved for all programs: WF and the per-slot agreement with the "
+                   "specification are evaluated on every dumped table instead; proved are the epilog alias theorem and the "
+                   "one-level flag-inheritance table",
+                   "compress_function_tables / FIND_FUNC_ENTRY are validated as a round trip (model builds uncompressed entries, the "
+                   "harness dumps through FIND_FUNC_ENTRY), not modelled",
+                   "heart_beat dispatch (prog->heart_beat index), simul_efun dispatch, efun function pointers and function pointers "
+                   "evaluated by another object (ORIGIN_FUNCTIONAL, bound functions) are not exercised",
                    "varargs / argument count normalisation (setup_variables) is outside the model",
                    "program deallocation and reuse of a program_t address while a cache entry still names it",
                    "programs loaded from saved binaries (see C17)"]
